@@ -13,12 +13,13 @@ no symbolic execution).  One obligation per (function, effect clause):
 
   no_global_rng / key_discipline / no_time_dependence / no_unordered_iteration /
   calls_have_contract            (see pyvc/effects.py for the exact rules)
+  no_shared_mutable_state        (pyvc/effects_state.py: class-level / module-level mutable objects that the code mutates)
 
 Obligation names: C09.<module>.<function qualname>.<clause>.
 """
 import os
 
-from pyvc import effects
+from pyvc import effects, effects_state
 from pyvc.runner import Task
 
 PROPERTY = "C09"
@@ -49,7 +50,10 @@ EXPLANATION = (
     "inference that follows set()/add/update/copy, return tuples and call-site arguments across functions; dict iteration is "
     "ordered and allowed; (5) every call targets a repo function carrying this contract, a library with an assumed "
     "'function of its arguments and of the explicit key/Generator/env' contract, or a callable parameter (deterministic by "
-    "precondition; listed in the assumptions). A violated clause is a failed obligation naming file:line. Bit-identity of "
+    "precondition; listed in the assumptions); (6) no hidden process-global mutable state: a class-level attribute whose value is "
+    "not provably immutable, is not rebound in __init__ and is mutated in place somewhere in the package, or a module-level "
+    "name that a function re-assigns through `global` or mutates in place, is a violation (a second run in the same process "
+    "would start from the first run's leftovers). A violated clause is a failed obligation naming file:line. Bit-identity of "
     "two runs is then DERIVED under the listed library-determinism assumptions (JAX/XLA CPU, NumPy, Gymnasium, Optax), it "
     "is not proved end to end. Replay of a failed obligation runs the flagged training routine twice with equal seeds and "
     "compares parameters/counters bitwise (replay/drivers/c09_twice.py)."
@@ -78,6 +82,20 @@ def _make(module, idx):
                 E.st.fail(name, f"{detail} [reached-from={','.join(roots)}]")
             if entered is not None and fi.qual not in entered:
                 entered[fi.qual] = R.function_record(fi)
+        # sixth clause: no hidden process-global mutable state (class-level / module-level objects mutated by the
+        # training code; pyvc/effects_state.py) - one obligation per class attribute / module-level assignment
+        for r in effects_state.analyse_root(E.shared.loader.root):
+            if r["module"] != module:
+                continue
+            name = f"{r['owner']}.no_shared_mutable_state[{r['name']}]"
+            if r["verdict"] == "ok":
+                E.st.ok(name, backend="effects")
+            else:
+                E.st.fail(name, r["detail"])
+        if effects_state.run_canary():
+            E.st.fail("canary.shared_state_detected", "synthetic class-level list / module-level dict flagged (as required)")
+        else:
+            E.st.ok("canary.shared_state_detected")
         # vacuity canary: the same analysis on a synthetic violating module must flag it
         cname = _CANARY_FOR[idx % len(_CANARY_FOR)]
         found, clause = effects.run_canary(cname)
